@@ -2177,7 +2177,7 @@ class Cache:
 
         # Remove expired items.
 
-        count = self.expire(now)
+        count = self.expire(now, retry=True) if retry else self.expire(now)
 
         # Remove items by policy.
 
